@@ -161,7 +161,7 @@ def run(ctx: core.Ctx):
     tmp = Path(tempfile.mkdtemp(prefix="c18_", dir=os.environ.get("TMPDIR", "/tmp")))
     try:
         import time
-        for name, fn in (("validation", _validation), ("options", _options), ("design_outcomes", _design_outcomes), ("processes", _processes)):
+        for name, fn in (("validation", _validation), ("options", _options), ("design_outcomes", _design_outcomes), ("placement", _placement), ("processes", _processes)):
             t = time.time()
             fn(ctx, tmp)
             ctx.extra[name + "_s"] = round(time.time() - t, 1)
@@ -442,6 +442,155 @@ def _design_outcomes(ctx, tmp):
             toks = out[i].split()
             if toks[0] != "exit" or int(toks[1]) != r["exit"] or (toks[2] == "t") != wrote:
                 _broken(ctx, "design-outcome-correspondence", {"label": label, "impl_exit": r["exit"], "impl_files": r["files"], "impl_exc": r["exc"], "model": " ".join(toks[:3])})
+
+
+def _run_cli_real(args):
+    """The click command in-process, nothing stubbed; (exit code, exception text or None, captured stderr of manager.py)."""
+    import io
+
+    from click.testing import CliRunner
+
+    from ghedesigner import manager as mgr_mod
+
+    buf = io.StringIO()
+    saved = mgr_mod.stderr
+    mgr_mod.stderr = buf
+    try:
+        with cl.silent() as (so, se):
+            r = CliRunner().invoke(mgr_mod.run_manager_from_cli, args)
+    finally:
+        mgr_mod.stderr = saved
+    exc = f"{type(r.exception).__name__}: {r.exception}"[:160] if r.exception is not None and not isinstance(r.exception, SystemExit) else None
+    return r.exit_code, exc, (buf.getvalue() + se.getvalue() + (r.output or ""))[-300:]
+
+
+def _listing(d: Path):
+    """Relative paths of everything below `d` (files and directories), sorted."""
+    if not d.exists():
+        return None
+    return sorted(str(q.relative_to(d)) + ("/" if q.is_dir() else "") for q in d.rglob("*"))
+
+
+def _summary_facts(d: Path):
+    try:
+        s = json.loads((d / "SimulationSummary.json").read_text())["ghe_system"]
+        return {"number_of_boreholes": s["number_of_boreholes"], "active_borehole_length": s["active_borehole_length"]["value"],
+                "pipe_geometry_keys": sorted(s["pipe_geometry"])}
+    except Exception as e:  # noqa: BLE001
+        return {"unreadable": f"{type(e).__name__}: {e}"[:100]}
+
+
+def _placement_worker(job):
+    """A sequence of real runs / conversions in one process: [(label, kind, input doc or None, directory, prepare)]."""
+    import time
+    import warnings
+
+    warnings.filterwarnings("ignore")
+    steps, workdir = job
+    wd = Path(workdir)
+    wd.mkdir(parents=True, exist_ok=True)
+    out = []
+    targets = set()
+    for label, kind, doc, rel, prepare in steps:
+        target = wd / rel
+        targets.add(target)
+        if prepare == "mkdir":
+            target.mkdir(parents=True, exist_ok=True)
+        t0 = time.time()
+        if kind == "run":
+            p = wd / f"pl_{label}.json"
+            _write(p, doc)
+            code, exc, err = _run_cli_real([str(p), str(target)])
+            files = _listing(target)
+            fresh = None if files is None else all((target / f).exists() and (target / f).stat().st_mtime >= t0 - 1.0 for f in OUTPUT_FILES)
+            out.append({"label": label, "kind": kind, "exit": code, "exc": exc, "stderr": err, "listing": files, "all_fresh": fresh,
+                        "facts": _summary_facts(target), "elsewhere": [str(q.relative_to(wd)) for q in wd.rglob("SimulationSummary.json") if q.parent not in targets]})
+        else:  # convert the summary in directory `rel`
+            idf = target / "out.idf"
+            idf.unlink(missing_ok=True)
+            code, exc, err = _run_cli_real(["--convert", "IDF", str(target / "SimulationSummary.json")])
+            out.append({"label": label, "kind": kind, "exit": code, "exc": exc, "stderr": err,
+                        "idf_bytes": idf.stat().st_size if idf.exists() else None, "has_summary": (target / "SimulationSummary.json").exists()})
+    return out
+
+
+def _placement(ctx, tmp):
+    """Where the results go, and what `--convert IDF` leaves behind — on real runs:
+    exit 0 => the six result files sit directly in the directory that was given (fresh, nested fresh, pre-existing,
+    re-used: then they are those of the later run) and nowhere else; `--convert IDF` exits 0 exactly when it wrote a
+    non-empty out.idf next to the summary (U-tube and coaxial results)."""
+    docs = dict(outcome_documents())
+    utube = docs["feasible"]
+    coax = json.loads(json.dumps(utube))
+    coax["pipe"] = json.loads(json.dumps(cl.base_documents()[2][1]["pipe"]))          # the coaxial demo pipe
+    coax["geometric_constraints"]["b"] = 6.0
+    jobs = [
+        ([("fresh-directory", "run", utube, "pl_a", None), ("second-run-into-the-same-directory", "run", coax, "pl_a", None),
+          ("convert-IDF-coaxial-results", "convert", None, "pl_a", None)], str(tmp / "pj0")),
+        ([("nested-fresh-directory", "run", utube, "pl_b/deeper/results", None), ("convert-IDF-u-tube-results", "convert", None, "pl_b/deeper/results", None)], str(tmp / "pj1")),
+        ([("pre-existing-empty-directory", "run", utube, "pl_c", "mkdir")], str(tmp / "pj2")),
+        ([("coaxial-fresh-directory", "run", coax, "pl_e", None), ("pre-existing-directory-coaxial", "run", coax, "pl_f/results", "mkdir")], str(tmp / "pj3")),
+    ]
+    res = [r for rs in core.pool_map(_placement_worker, jobs, workers=len(jobs)) for r in rs]
+    by = {r["label"]: r for r in res}
+    lines, order = [], []
+    for r in res:
+        if r["kind"] == "run":
+            ok = r["listing"] is not None and all(f in r["listing"] for f in OUTPUT_FILES)
+            lines.append(_model_cli(False, None, True, True, [] if ok else ["write_output_files"], cl.enc(coax if "coaxial" in r["label"] or r["label"].startswith("second") else utube)))
+        else:
+            lines.append(_model_cli(False, "IDF", False, not r["idf_bytes"], [], ["-"]))
+        order.append(r["label"])
+    out = ctx.driver(lines)
+    for i, r in enumerate(res):
+        label = r["label"]
+        ctx.case(("placement", label), True, {"placement": label, "exit": r["exit"], "listing": r.get("listing"), "idf_bytes": r.get("idf_bytes")} if "pre-existing-empty" in label or "coaxial-results" in label else None)
+        ctx.count(f"placement:{r['kind']}:exit{r['exit']}")
+        replay = {"step": label, **{k: v for k, v in r.items() if k != "label"},
+                  "inputs": "harness/c18.py _placement: the `feasible` near-square 12-month input of outcome_documents() (U-tube) and the same with the coaxial demo pipe"}
+        if r["kind"] == "run":
+            direct = r["listing"] is not None and all(f in r["listing"] for f in OUTPUT_FILES)
+            stray = [q for q in (r["listing"] or []) if q not in OUTPUT_FILES]
+            if r["exit"] == 0 and (not direct or stray or r["elsewhere"] or not r["all_fresh"]):
+                why = ("the six result files are not directly in the directory given" if not direct else
+                       "the directory given also holds " + str(stray) if stray else "result files were written elsewhere: " + str(r["elsewhere"]) if r["elsewhere"] else "the files in the directory are not those of this run")
+                ctx.finding(f"outputs:{label}:exit0:{'missing' if not direct else 'misplaced'}",
+                            f"`ghedesigner <input> <dir>` with {label}: exit status 0 but {why}; directory listing {r['listing']}, written elsewhere {r['elsewhere']}", replay)
+            elif r["exit"] != 0:
+                ctx.finding(f"outputs:{label}:exit{r['exit']}", f"`ghedesigner <input> <dir>` with {label} (feasible valid input) exited {r['exit']}: {r['exc']}", replay)
+            if label == "second-run-into-the-same-directory" and r["exit"] == 0:
+                ref = by.get("coaxial-fresh-directory", {}).get("facts")
+                if ref is not None and r["facts"] != ref:
+                    ctx.finding(f"outputs:{label}:stale-results", f"after a second run into the directory of the first, the summary there says {r['facts']} but the second input gives {ref}", replay)
+            if out is not None:
+                toks = out[i].split()
+                if int(toks[1]) != r["exit"] or (toks[2] == "t") != direct:
+                    _broken(ctx, "placement-correspondence", {"step": label, "impl_exit": r["exit"], "impl_listing": r["listing"], "model": " ".join(toks[:3])})
+        else:
+            converted = bool(r["idf_bytes"])
+            if not r["has_summary"]:
+                ctx.count("placement:convert-without-summary")
+                continue
+            if (r["exit"] == 0) != converted:
+                ctx.finding(f"convert:{label}:exit{r['exit']}:{'idf' if converted else 'no-idf'}",
+                            f"`ghedesigner --convert IDF <results>/SimulationSummary.json` ({label}): exit status {r['exit']} but out.idf "
+                            f"{'was written (' + str(r['idf_bytes']) + ' bytes)' if converted else 'was not written'} (exception {r['exc']}; messages {r['stderr'].strip()[-120:]!r}); "
+                            "success must be reported exactly when the conversion happened", replay)
+            if label == "convert-IDF-u-tube-results" and not converted:
+                ctx.finding(f"convert:{label}:no-idf", f"a U-tube result summary was not converted (exit {r['exit']}, {r['exc']})", replay)
+            if out is not None and int(out[i].split()[1]) != r["exit"]:
+                _broken(ctx, "convert-correspondence", {"step": label, "impl_exit": r["exit"], "idf_bytes": r["idf_bytes"], "model": out[i]})
+    # the coaxial conversion once more as a real process
+    if (tmp / "pj3" / "pl_e" / "SimulationSummary.json").exists():
+        idf = tmp / "pj3" / "pl_e" / "out.idf"
+        idf.unlink(missing_ok=True)
+        code, so, se = _proc(["--convert", "IDF", str(tmp / "pj3" / "pl_e" / "SimulationSummary.json")], str(tmp))
+        converted = idf.exists() and idf.stat().st_size > 0
+        ctx.case(("placement", "process-convert-IDF-coaxial"), True)
+        ctx.count(f"placement:process-convert:exit{code}")
+        if (code == 0) != converted:
+            ctx.finding(f"convert:process-coaxial-results:exit{code}:{'idf' if converted else 'no-idf'}",
+                        f"real process `--convert IDF` on coaxial results: exit status {code}, out.idf written = {converted}", {"stdout": so[-200:], "stderr": se[-300:]})
 
 
 # --------------------------------------------------------------------------------------------- real processes
